@@ -498,6 +498,23 @@ func (p *queryPlan) addSpecifiedData(ctx context.Context, r table.Row, cls *sema
 		lo = nlo
 	}
 
+	// An object predicate bounded by bindings ("id"@[?lo,?hi]) takes the bounds
+	// of its interval from the row, as a predicate bounded by bindings does.
+	if cls.OLowerBoundAlias != "" {
+		v, ok := r[cls.OLowerBoundAlias]
+		if !ok || v == nil || v.T == nil {
+			return fmt.Errorf("invalid time anchor value %v for bound %s", v, cls.OLowerBoundAlias)
+		}
+		cls.OLowerBound = v.T
+	}
+	if cls.OUpperBoundAlias != "" {
+		v, ok := r[cls.OUpperBoundAlias]
+		if !ok || v == nil || v.T == nil {
+			return fmt.Errorf("invalid time anchor value %v for bound %s", v, cls.OUpperBoundAlias)
+		}
+		cls.OUpperBound = v.T
+	}
+
 	tracer.V(3).Trace(p.tracer, func() *tracer.Arguments {
 		return &tracer.Arguments{
 			Msgs: []string{fmt.Sprintf("Corrected clause: %v", cls)},
